@@ -363,3 +363,242 @@ Proof. split; [eexists; split; [vm_compute; reflexivity|reflexivity]|split; vm_c
 Lemma rejects_use_before_definition :
   trc_prog [ex_use; ex_gcd; ex_seven] = None.
 Proof. vm_compute. reflexivity. Qed.
+
+(* ---------------------------------------------------------------- Go's result is well defined *)
+(* one unfolding of the fuelled semantics *)
+Lemma cgo_expr_S n P r e : cgo_expr (S n) P r e =
+  match e with
+  | CLit k => Some (LitV (LitInt k))
+  | CBool b => Some (LitV (LitBool b))
+  | CVar x => elookup x r
+  | CBin OLAnd a b =>
+      match cgo_expr n P r a with
+      | Some (LitV (LitBool true)) => match cgo_expr n P r b with Some (LitV (LitBool x)) => Some (LitV (LitBool x)) | _ => None end
+      | Some (LitV (LitBool false)) => Some (LitV (LitBool false))
+      | _ => None
+      end
+  | CBin OLOr a b =>
+      match cgo_expr n P r a with
+      | Some (LitV (LitBool true)) => Some (LitV (LitBool true))
+      | Some (LitV (LitBool false)) => match cgo_expr n P r b with Some (LitV (LitBool x)) => Some (LitV (LitBool x)) | _ => None end
+      | _ => None
+      end
+  | CBin op a b =>
+      match cgo_expr n P r a, cgo_expr n P r b with
+      | Some va, Some vb => go_binop op va vb
+      | _, _ => None
+      end
+  | CNot a =>
+      match cgo_expr n P r a with
+      | Some (LitV (LitBool b)) => Some (LitV (LitBool (negb b)))
+      | _ => None
+      end
+  | CCall f args =>
+      match elookup f r, find_func f P, cgo_args n P r args with
+      | None, Some fn, Some vs =>
+          if Nat.eqb (length vs) (length (cf_params fn))
+          then cgo_body n P (rev (combine (cf_params fn) vs)) (cf_body fn)
+          else None
+      | _, _, _ => None
+      end
+  end.
+Proof. reflexivity. Qed.
+
+Lemma cgo_args_S n P r args : cgo_args (S n) P r args =
+  match args with
+  | CANil => Some []
+  | CACons a rest =>
+      match cgo_expr n P r a, cgo_args n P r rest with
+      | Some v, Some vs => Some (v :: vs)
+      | _, _ => None
+      end
+  end.
+Proof. reflexivity. Qed.
+
+Lemma cgo_body_S n P r b : cgo_body (S n) P r b =
+  match b with
+  | CRet e => cgo_expr n P r e
+  | CLet x e k =>
+      match cgo_expr n P r e with
+      | Some v => cgo_body n P ((x, v) :: r) k
+      | None => None
+      end
+  | CIf c th el =>
+      match cgo_expr n P r c with
+      | Some (LitV (LitBool cb)) => cgo_body n P r (if cb then th else el)
+      | _ => None
+      end
+  end.
+Proof. reflexivity. Qed.
+
+(* more fuel does not change a result: "Go returns v" does not depend on the
+   fuel the run was given *)
+Lemma cgo_mono : forall n,
+  (forall P r e v, cgo_expr n P r e = Some v -> cgo_expr (S n) P r e = Some v) /\
+  (forall P r a vs, cgo_args n P r a = Some vs -> cgo_args (S n) P r a = Some vs) /\
+  (forall P r b v, cgo_body n P r b = Some v -> cgo_body (S n) P r b = Some v).
+Proof.
+  induction n as [|n (IHE & IHA & IHB)].
+  { split; [|split]; intros; discriminate. }
+  split; [|split].
+  - intros P r e v H. rewrite cgo_expr_S in H. rewrite cgo_expr_S.
+    destruct e as [k|b|x|op a b|a|f args]; try exact H.
+    + destruct op;
+        try (destruct (cgo_expr n P r a) as [va|] eqn:Ea; [|discriminate]; rewrite (IHE _ _ _ _ Ea);
+             destruct (cgo_expr n P r b) as [vb|] eqn:Eb; [|discriminate]; rewrite (IHE _ _ _ _ Eb); exact H).
+      * destruct (cgo_expr n P r a) as [va|] eqn:Ea; [|discriminate]. rewrite (IHE _ _ _ _ Ea).
+        destruct va as [[| | |[]| | | |]| | |]; try discriminate; [|exact H].
+        destruct (cgo_expr n P r b) as [vb|] eqn:Eb; [|discriminate]. rewrite (IHE _ _ _ _ Eb). exact H.
+      * destruct (cgo_expr n P r a) as [va|] eqn:Ea; [|discriminate]. rewrite (IHE _ _ _ _ Ea).
+        destruct va as [[| | |[]| | | |]| | |]; try discriminate; [exact H|].
+        destruct (cgo_expr n P r b) as [vb|] eqn:Eb; [|discriminate]. rewrite (IHE _ _ _ _ Eb). exact H.
+    + destruct (cgo_expr n P r a) as [va|] eqn:Ea; [|discriminate]. rewrite (IHE _ _ _ _ Ea). exact H.
+    + destruct (elookup f r); [discriminate|].
+      destruct (find_func f P) as [fg|]; [|discriminate].
+      destruct (cgo_args n P r args) as [vs|] eqn:Ea; [|discriminate]. rewrite (IHA _ _ _ _ Ea).
+      destruct (Nat.eqb (length vs) (length (cf_params fg))); [|discriminate]. apply IHB, H.
+  - intros P r a vs H. rewrite cgo_args_S in H. rewrite cgo_args_S. destruct a as [|a rest]; [exact H|].
+    destruct (cgo_expr n P r a) as [v|] eqn:Ea; [|discriminate]. rewrite (IHE _ _ _ _ Ea).
+    destruct (cgo_args n P r rest) as [vs'|] eqn:Er; [|discriminate]. rewrite (IHA _ _ _ _ Er). exact H.
+  - intros P r b v H. rewrite cgo_body_S in H. rewrite cgo_body_S. destruct b as [e|x e k|c th el].
+    + apply IHE, H.
+    + destruct (cgo_expr n P r e) as [v1|] eqn:Ee; [|discriminate]. rewrite (IHE _ _ _ _ Ee). apply IHB, H.
+    + destruct (cgo_expr n P r c) as [vc|] eqn:Ec; [|discriminate]. rewrite (IHE _ _ _ _ Ec).
+      destruct vc as [[| | |cb| | | |]| | |]; try discriminate. apply IHB, H.
+Qed.
+
+Theorem cgo_call_fuel_irrelevant P f args n m v w :
+  cgo_call n P f args = Some v -> cgo_call m P f args = Some w -> v = w.
+Proof.
+  assert (Hle : forall k n0 b r v0, cgo_body n0 P r b = Some v0 -> cgo_body (k + n0) P r b = Some v0).
+  { induction k as [|k IH]; intros n0 b r v0 H; [exact H|]. cbn [Nat.add]. apply (proj2 (proj2 (cgo_mono (k + n0)))), IH, H. }
+  unfold cgo_call. destruct (find_func f P) as [fn|]; [|discriminate].
+  destruct (Nat.eqb (length args) (length (cf_params fn))); [|discriminate].
+  intros Hn Hm. pose proof (Hle m _ _ _ _ Hn) as H1. pose proof (Hle n _ _ _ _ Hm) as H2.
+  rewrite Nat.add_comm in H2. rewrite H1 in H2. injection H2 as ->. reflexivity.
+Qed.
+
+(* ---------------------------------------------------------------- accepted packages are in dependency order *)
+(* (the premise of C04's defined-before-use, for this fragment: what trc_prog
+   accepts is emitted callee first, under pairwise distinct names, one value
+   per function) *)
+Local Open Scope list_scope.
+
+Lemma NoDup_app_snoc {A} (l : list A) x : NoDup l -> ~ In x l -> NoDup (l ++ [x]).
+Proof.
+  induction l as [|y l IH]; cbn [app]; intros Hnd Hn.
+  - constructor; [intros []|constructor].
+  - inversion Hnd; subst. constructor.
+    + intros Hin. apply in_app_or in Hin. destruct Hin as [Hin|[->|[]]]; [contradiction|]. apply Hn. left; reflexivity.
+    + apply IH; [assumption|]. intros Hin. apply Hn. right; exact Hin.
+Qed.
+
+Fixpoint callees_e (e : cexpr) : list string :=
+  match e with
+  | CLit _ | CBool _ | CVar _ => []
+  | CBin _ a b => callees_e a ++ callees_e b
+  | CNot a => callees_e a
+  | CCall f args => f :: callees_a args
+  end
+with callees_a (a : cargs) : list string :=
+  match a with
+  | CANil => []
+  | CACons e rest => callees_e e ++ callees_a rest
+  end.
+
+Fixpoint callees_b (b : cbody) : list string :=
+  match b with
+  | CRet e => callees_e e
+  | CLet _ e k => callees_e e ++ callees_b k
+  | CIf c th el => callees_e c ++ callees_b th ++ callees_b el
+  end.
+
+Scheme cexpr_ind2 := Induction for cexpr Sort Prop
+  with cargs_ind2 := Induction for cargs Sort Prop.
+Combined Scheme cexpr_cargs_ind from cexpr_ind2, cargs_ind2.
+
+Lemma flookup_In f T v : flookup f T = Some v -> In f (map fst T).
+Proof.
+  induction T as [|[g w] T IH]; cbn [flookup map fst In]; [discriminate|].
+  destruct (String.eqb f g) eqn:E; [apply String.eqb_eq in E; auto|auto].
+Qed.
+
+Lemma trc_callees T self :
+  (forall e G e', trc_expr T self G e = Some e' -> forall g, In g (callees_e e) -> g = self \/ In g (map fst T)) /\
+  (forall a G acc e', trc_args T self G a acc = Some e' -> forall g, In g (callees_a a) -> g = self \/ In g (map fst T)).
+Proof.
+  apply cexpr_cargs_ind.
+  - intros n G e' _ g [].
+  - intros b G e' _ g [].
+  - intros x G e' _ g [].
+  - intros op a IHa b IHb G e' H g Hin. cbn [trc_expr] in H.
+    destruct (trc_expr T self G a) eqn:Ea; [|discriminate]. destruct (trc_expr T self G b) eqn:Eb; [|discriminate].
+    cbn [callees_e] in Hin. apply in_app_or in Hin. destruct Hin; eauto.
+  - intros a IHa G e' H g Hin. cbn [trc_expr] in H. destruct (trc_expr T self G a) eqn:Ea; [|discriminate]. eauto.
+  - intros f args IHargs G e' H g Hin. cbn [trc_expr] in H. destruct (smem f G); [discriminate|].
+    cbn [callees_e In] in Hin. destruct Hin as [<-|Hin].
+    + destruct (String.eqb f self) eqn:Es; [left; apply String.eqb_eq, Es|].
+      destruct (flookup f T) eqn:Ef; [right; eapply flookup_In, Ef|discriminate].
+    + destruct (if String.eqb f self then Some (Var f) else option_map Val (flookup f T)) as [fe|]; [|discriminate].
+      destruct args as [|a rest]; [destruct Hin|]. eapply IHargs; eassumption.
+  - intros G acc e' _ g [].
+  - intros a IHa rest IHrest G acc e' H g Hin. cbn [trc_args] in H.
+    destruct (trc_expr T self G a) eqn:Ea; [|discriminate].
+    cbn [callees_a] in Hin. apply in_app_or in Hin. destruct Hin; eauto.
+Qed.
+
+Lemma trc_body_callees T self : forall b G b', trc_body T self G b = Some b' ->
+  forall g, In g (callees_b b) -> g = self \/ In g (map fst T).
+Proof.
+  induction b as [e|x e k IHk|c th IHt el IHe]; intros G b' H g Hin; cbn [trc_body callees_b] in H, Hin.
+  - eapply (proj1 (trc_callees T self)); eassumption.
+  - destruct (trc_expr T self G e) eqn:Ee; [|discriminate]. destruct (trc_body T self (x :: G) k) eqn:Ek; [|discriminate].
+    apply in_app_or in Hin. destruct Hin; [eapply (proj1 (trc_callees T self)); eassumption|eauto].
+  - destruct (trc_expr T self G c) eqn:Ec; [|discriminate]. destruct (trc_body T self G th) eqn:Et; [|discriminate].
+    destruct (trc_body T self G el) eqn:El; [|discriminate].
+    apply in_app_or in Hin. destruct Hin as [Hin|Hin]; [eapply (proj1 (trc_callees T self)); eassumption|].
+    apply in_app_or in Hin. destruct Hin; eauto.
+Qed.
+
+Lemma prog_order : forall P1 P0 T R, map fst T = rev (map cf_name P0) ->
+  trc_prog_from T P1 = Some R ->
+  length R = length P1 /\
+  (NoDup (map cf_name P0) -> NoDup (map cf_name (P0 ++ P1))) /\
+  forall i fn g, nth_error P1 i = Some fn -> In g (callees_b (cf_body fn)) ->
+    g = cf_name fn \/ In g (map cf_name P0) \/ exists j gn, j < i /\ nth_error P1 j = Some gn /\ cf_name gn = g.
+Proof.
+  induction P1 as [|fn P1 IH]; intros P0 T R Hfst Htr; cbn [trc_prog_from] in Htr.
+  - injection Htr as <-. split; [reflexivity|]. split; [rewrite app_nil_r; auto|]. intros [|i] ? ? H; discriminate H.
+  - destruct (negb (smem (cf_name fn) (map fst T))) eqn:Enm; [|discriminate].
+    destruct (trc_func T fn) as [v|] eqn:Ef; [|discriminate].
+    destruct (trc_prog_from ((cf_name fn, v) :: T) P1) as [R'|] eqn:Er; [|discriminate]. injection Htr as <-.
+    assert (Hfst' : map fst ((cf_name fn, v) :: T) = rev (map cf_name (P0 ++ [fn]))).
+    { cbn [map fst]. rewrite map_app, rev_app_distr. cbn [map rev app]. rewrite Hfst. reflexivity. }
+    destruct (IH (P0 ++ [fn]) _ _ Hfst' Er) as (Hlen & Hnd & Hcalls).
+    assert (Hfresh : ~ In (cf_name fn) (map cf_name P0)).
+    { intros Hin. apply in_rev in Hin. rewrite <- Hfst in Hin. apply smem_In in Hin. rewrite Hin in Enm. discriminate. }
+    split; [cbn [length]; rewrite Hlen; reflexivity|]. split.
+    + intros Hnd0. replace (P0 ++ fn :: P1) with ((P0 ++ [fn]) ++ P1) by (rewrite <- app_assoc; reflexivity).
+      apply Hnd. rewrite map_app. cbn [map]. apply NoDup_app_snoc; assumption.
+    + intros [|i] f0 g Hn Hin; cbn [nth_error] in Hn.
+      * injection Hn as <-. unfold trc_func in Ef.
+        destruct (nodupb (cf_params fn) && negb (smem (cf_name fn) (cf_params fn))); [|discriminate].
+        destruct (trc_body T (cf_name fn) (rev (cf_params fn)) (cf_body fn)) eqn:Eb; [|discriminate].
+        destruct (trc_body_callees _ _ _ _ _ Eb g Hin) as [->|HinT]; [left; reflexivity|].
+        right. left. rewrite Hfst in HinT. apply in_rev, HinT.
+      * destruct (Hcalls i f0 g Hn Hin) as [->|[Hin0|(j & gn & Hj & Hnj & Hg)]]; [left; reflexivity| |].
+        -- rewrite map_app in Hin0. apply in_app_or in Hin0. destruct Hin0 as [Hin0|[<-|[]]]; [right; left; exact Hin0|].
+           right. right. exists 0, fn. split; [apply Nat.lt_0_succ|]. split; reflexivity.
+        -- right. right. exists (S j), gn. split; [apply -> Nat.succ_lt_mono; exact Hj|]. split; assumption.
+Qed.
+
+Theorem accepted_in_dependency_order P vs : trc_prog P = Some vs ->
+  length vs = length P /\ NoDup (map cf_name P) /\
+  forall i fn g, nth_error P i = Some fn -> In g (callees_b (cf_body fn)) ->
+    g = cf_name fn \/ exists j gn, j < i /\ nth_error P j = Some gn /\ cf_name gn = g.
+Proof.
+  unfold trc_prog. destruct (trc_prog_from [] P) as [R|] eqn:Er; [|discriminate]. cbn [option_map]. intros [= <-].
+  destruct (prog_order P [] [] R eq_refl Er) as (Hlen & Hnd & Hcalls).
+  split; [rewrite map_length; exact Hlen|]. split; [apply (Hnd (NoDup_nil _))|].
+  intros i fn g Hn Hin. destruct (Hcalls i fn g Hn Hin) as [H|[[]|H]]; auto.
+Qed.
